@@ -1,5 +1,6 @@
 import LanceModel.C31.WriterInv
 import LanceModel.C31.FrameLemmas
+import LanceModel.C31.AckLemmas
 /-
 C31 — "Whatever sequence and sizes of writes are issued to an object writer (below, at and above multipart
 thresholds), the object that appears after a successful shutdown has exactly the concatenated bytes, nothing
@@ -226,6 +227,18 @@ theorem retry_effective_partial (c : Cfg) (ops : List Op) (hnf : ops.any Op.isFa
 /-- `tell()` is always the number of bytes accepted so far -/
 theorem cursor_total (c : Cfg) (ops : List Op) : (run (init c) ops).cursor = total (run (init c) ops).log :=
   (inv_run c ops).2.1.1
+
+/-- The accepted writes of `shutdown_content` are what the caller was told: as long as no poll reports an error, the
+lengths of the accepted writes are exactly the `Ready(Ok(k))` answers of `poll_write`, in order (each from the
+beginning of that call's input slice). -/
+theorem log_is_acked (c : Cfg) (ops : List Op) (h : ∀ e, Res.err e ∉ trace (init c) ops) :
+    (run (init c) ops).log.map (·.len) = acked (trace (init c) ops) := by
+  have := run_log ops (init c) h
+  simpa [init] using this
+
+example : (Res.err .other ∉ trace (init exCfg) exOps ∧ Res.err .connReset ∉ trace (init exCfg) exOps) ∧
+    acked (trace (init exCfg) exOps) = [3, 3, 1] := by
+  decide
 
 /-- every `put_part` call in flight or recorded carries the payload it was called with, part numbers are never reused,
 and every call is in flight, recorded or failed (the store bookkeeping the other theorems rest on) -/
